@@ -87,6 +87,7 @@ type c10Hdr struct {
 	Difficulty                                                        *big.Int
 	Number, GasLimit, GasUsed, Time                                   uint64
 	Rev                                                               uint64 // Height.RevisionNumber (op line: number field "rev-number" when non-zero)
+	BaseFeeWire                                                       []byte // when non-nil: the bytes sent in the proto message (op line "x<hex>"); BaseFee = their value
 	Extra, MixDigest                                                  []byte
 	Nonce                                                             uint64
 	BaseFee                                                           *big.Int
@@ -108,8 +109,22 @@ func (h *c10Hdr) proto() xibcethtypes.Header {
 	return xibcethtypes.Header{
 		ParentHash: h.ParentHash, UncleHash: h.UncleHash, Coinbase: h.Coinbase, Root: h.Root, TxHash: h.TxHash, ReceiptHash: h.ReceiptHash,
 		Bloom: h.Bloom, Difficulty: h.Difficulty.Bytes(), Height: clienttypes.NewHeight(h.Rev, h.Number), GasLimit: h.GasLimit, GasUsed: h.GasUsed,
-		Time: h.Time, Extra: h.Extra, MixDigest: h.MixDigest, Nonce: h.Nonce, BaseFee: h.BaseFee.Bytes(),
+		Time: h.Time, Extra: h.Extra, MixDigest: h.MixDigest, Nonce: h.Nonce, BaseFee: h.baseFeeBytes(),
 	}
+}
+
+func (h *c10Hdr) baseFeeBytes() []byte {
+	if h.BaseFeeWire != nil {
+		return h.BaseFeeWire
+	}
+	return h.BaseFee.Bytes() // 0 is the EMPTY byte string
+}
+
+func (h *c10Hdr) baseFeeField() string {
+	if h.BaseFeeWire != nil {
+		return "x" + hex.EncodeToString(h.BaseFeeWire)
+	}
+	return h.BaseFee.String()
 }
 
 func (h *c10Hdr) seal() { h.Hash = h.eth().Hash() }
@@ -121,7 +136,7 @@ func (h *c10Hdr) String() string {
 	}
 	return strings.Join([]string{hx(h.ParentHash), hx(h.UncleHash), hx(h.Coinbase), hx(h.Root), hx(h.TxHash), hx(h.ReceiptHash), hx(h.Bloom),
 		h.Difficulty.String(), h.numField(), fmt.Sprint(h.GasLimit), fmt.Sprint(h.GasUsed), fmt.Sprint(h.Time), hx(h.Extra),
-		hx(h.MixDigest), fmt.Sprint(h.Nonce), h.BaseFee.String(), hx(h.Hash[:]), pow}, " ")
+		hx(h.MixDigest), fmt.Sprint(h.Nonce), h.baseFeeField(), hx(h.Hash[:]), pow}, " ")
 }
 
 func (h *c10Hdr) numField() string {
@@ -140,6 +155,14 @@ func c10Parse(f []string) (*c10Hdr, bool) {
 	h := &c10Hdr{ParentHash: unhx(f[0]), UncleHash: unhx(f[1]), Coinbase: unhx(f[2]), Root: unhx(f[3]), TxHash: unhx(f[4]), ReceiptHash: unhx(f[5]),
 		Bloom: unhx(f[6]), Difficulty: b(f[7]), Number: u(f[8]), GasLimit: u(f[9]), GasUsed: u(f[10]), Time: u(f[11]), Extra: unhx(f[12]),
 		MixDigest: unhx(f[13]), Nonce: u(f[14]), BaseFee: b(f[15]), Pow: f[17] == "1"}
+	if strings.HasPrefix(f[15], "x") {
+		wire, err := hex.DecodeString(f[15][1:])
+		if err != nil {
+			return nil, false
+		}
+		h.BaseFeeWire = append([]byte{}, wire...)
+		h.BaseFee = new(big.Int).SetBytes(wire)
+	}
 	if rn := strings.SplitN(f[8], "-", 2); len(rn) == 2 {
 		h.Rev, h.Number = u(rn[0]), u(rn[1])
 	}
@@ -357,7 +380,23 @@ func (w *c10World) submit(h *c10Hdr, now uint64, commit bool) (string, string) {
 	cctx = cctx.WithBlockTime(time.Unix(int64(now), 0))
 	p := h.proto()
 	var err error
-	pan, msg := safely(func() { err = w.app.XIBCKeeper.ClientKeeper.UpdateClient(cctx, w.name, &p) })
+	pan, msg := safely(func() {
+		// as a transaction would: MsgUpdateClient (header packed into an Any) → ValidateBasic → msg server → client keeper
+		var m *clienttypes.MsgUpdateClient
+		if m, err = clienttypes.NewMsgUpdateClient(w.name, &p, sdk.AccAddress(make([]byte, 20))); err != nil {
+			return
+		}
+		if err = m.ValidateBasic(); err != nil {
+			err = fmt.Errorf("MsgUpdateClient.ValidateBasic: %w", err)
+			return
+		}
+		hdr, e := clienttypes.UnpackHeader(m.Header)
+		if e != nil {
+			err = e
+			return
+		}
+		err = w.app.XIBCKeeper.ClientKeeper.UpdateClient(cctx, w.name, hdr)
+	})
 	if pan {
 		return "panic", msg
 	}
@@ -563,6 +602,31 @@ func (w *c10World) apply(r *Rec, op string) string {
 		p := h.proto()
 		cs := &xibcethtypes.ClientState{Header: p, ChainId: w.chainID, ContractAddress: []byte("0x00"), TrustingPeriod: w.trusting, TimeDelay: 0, BlockDelay: 1}
 		cons := &xibcethtypes.ConsensusState{Timestamp: h.Time, Height: p.Height, Root: h.Root}
+		// a client is created by a proposal, whose ValidateBasic runs ClientState.Validate (= the creation header's ValidateBasic)
+		wantOK := !(h.Rev == 0 && h.Number == 0) && h.GasLimit <= 1<<63-1 && h.GasUsed <= h.GasLimit &&
+			(h.Number == 0 || new(big.Int).And(h.Difficulty, new(big.Int).SetUint64(^uint64(0))).Sign() != 0)
+		var verr error
+		if pan, msg := safely(func() { verr = cs.Validate() }); pan {
+			r.Find(Finding{Sig: "C10:create-panic", What: "ClientState.Validate panics: " + msg, Ops: w.histCopy(), Obs: "panic", Req: "ok or error"})
+			verr = fmt.Errorf("panic")
+		}
+		if (verr == nil) != wantOK {
+			sig := "C10:valid-creation-rejected"
+			if verr == nil {
+				sig = "C10:invalid-creation-accepted"
+			}
+			r.Find(Finding{Sig: sig, What: fmt.Sprintf("ClientState.Validate of the creation header (base fee %s, gas %d/%d, difficulty %s): %v", h.BaseFee, h.GasUsed, h.GasLimit, h.Difficulty, verr),
+				Ops: w.histCopy(), Obs: fmt.Sprint(verr), Req: fmt.Sprint("accepted = ", wantOK)})
+		}
+		if verr != nil && !wantOK { // (a refusal of a rule-abiding creation header is reported above; the history then continues on a
+			// client created through the keeper, as one that predates the refusing guard, so that its updates are judged too)
+			w.c10Book = c10Book{}
+			r.Count("create.rejected")
+			return "err"
+		}
+		if h.BaseFee.Sign() == 0 {
+			r.Count("basefee.zero.creation")
+		}
 		if err := w.app.XIBCKeeper.ClientKeeper.CreateClient(w.ctx, w.name, cs, cons); err != nil {
 			r.t.Fatalf("CreateClient: %v", err)
 		}
@@ -588,6 +652,11 @@ func (w *c10World) apply(r *Rec, op string) string {
 		h, ok := c10Parse(f[2:])
 		if !ok {
 			r.t.Fatalf("bad header in %q", op)
+		}
+		if !w.created { // no such client (its creation was refused)
+			res, _ := w.submit(h, now, false)
+			r.Count("no-client." + res)
+			return res
 		}
 		if ch := func() common.Hash { p := h.proto(); return p.Hash() }(); ch != h.Hash {
 			r.Find(Finding{Sig: "C10:hash-differs-from-go-ethereum", What: "client header hash differs from go-ethereum's", Ops: w.histCopy(), Obs: ch.Hex(), Req: h.Hash.Hex()})
@@ -633,6 +702,16 @@ func (w *c10World) apply(r *Rec, op string) string {
 			}
 		}
 		r.Count(f[0] + "." + res)
+		if must && h.BaseFee.Sign() == 0 {
+			if res == "ok" {
+				r.Count("basefee.zero.valid-child.accepted")
+			} else {
+				r.Count("basefee.zero.valid-child.rejected")
+			}
+		}
+		if must && parent.BaseFee.Sign() == 0 && h.BaseFee.Sign() > 0 && res == "ok" {
+			r.Count("basefee.zero-to-one.accepted")
+		}
 		if must {
 			r.Count("valid." + kind)
 			if before.consLo > w.lo0 {
@@ -1211,6 +1290,87 @@ func (g *c10Gen) lowFeeHistory() []string {
 	return ops
 }
 
+// a chain whose base fee IS 0 (private / PoA network started with baseFeePerGas = 0): the creation header has base fee 0 and
+// parents do not use more gas than their target, so the children's base fee stays 0 (encoded as the EMPTY byte string);
+// forks on it; then blocks above target lift it to 1, 2, … from where it never returns to 0
+func (g *c10Gen) zeroFeeHistory() []string {
+	rng := g.r.Rng
+	gl := uint64(30000000)
+	if rng.Intn(3) == 0 {
+		gl = 5000 + uint64(rng.Intn(50000))
+	}
+	target := gl / 2
+	low := func() uint64 { return []uint64{0, target, target - 1, target / 2}[rng.Intn(4)] }
+	gen := g.genesisWith(uint64(1+rng.Intn(1000)), 1700000000, gl, low(), big.NewInt(0))
+	now := uint64(1700001000)
+	ops := []string{g.reset(4, 100000000, gen)}
+	all := []*c10Hdr{gen}
+	tip := gen
+	wire := func(h *c10Hdr, b []byte) *c10Hdr {
+		m := *h
+		m.BaseFeeWire = b
+		m.BaseFee = new(big.Int).SetBytes(b)
+		m.Difficulty = new(big.Int).Set(h.Difficulty)
+		m.seal()
+		return &m
+	}
+	for i := 0; i < 8+rng.Intn(6); i++ {
+		p := tip
+		if rng.Intn(3) == 0 {
+			p = all[rng.Intn(len(all))] // fork
+		}
+		gu := low()
+		if i >= 5 && rng.Intn(2) == 0 {
+			gu = target + 1 + uint64(rng.Intn(int(target))) // the NEXT block's fee rises
+		}
+		c := g.childGas(p, 1+uint64(rng.Intn(3)), gl, gu)
+		if c.BaseFee.Sign() == 0 {
+			// the same header with the zero written as explicit zero bytes (same value, same hash), and a wrong fee of 1
+			ops = append(ops, c10Op("probe", now, wire(c, []byte{0})), c10Op("probe", now, wire(c, []byte{0, 0, 0})), c10Op("probe", now, c10WithBase(c, big.NewInt(1))))
+			g.r.Count("zerofee.child-with-fee-0")
+		} else {
+			ops = append(ops, c10Op("probe", now, c10WithBase(c, big.NewInt(0))), c10Op("probe", now, wire(c, append([]byte{0}, c.BaseFee.Bytes()...))))
+		}
+		ops = append(ops, c10Op("probe", now, c), c10Op("upd", now, c))
+		all = append(all, c)
+		if p == tip {
+			tip = c
+		}
+		ops = append(ops, c10Op("probe", now, g.childGas(all[rng.Intn(len(all))], 1, gl, low())))
+	}
+	return ops
+}
+
+// creation headers: rule-abiding edge cases and the ones ClientState.Validate must refuse
+func (g *c10Gen) creationHistory() []string {
+	t0 := uint64(1700000000)
+	var ops []string
+	mk := func(f func(h *c10Hdr)) {
+		h := g.genesisWith(9, t0, 30000000, 15000000, big.NewInt(0))
+		f(h)
+		h.seal()
+		ops = append(ops, g.reset(4, 100000000, h), c10Op("probe", t0+100, g.childGas(h, 1, h.GasLimit, c10MinU(h.GasUsed, h.GasLimit/2))))
+		g.r.Count("boundary.creation")
+	}
+	mk(func(h *c10Hdr) {})
+	mk(func(h *c10Hdr) { h.GasUsed = h.GasLimit })
+	mk(func(h *c10Hdr) { h.GasUsed = h.GasLimit + 1 })
+	mk(func(h *c10Hdr) { h.GasLimit, h.GasUsed = 1<<63-1, 0 })
+	mk(func(h *c10Hdr) { h.GasLimit, h.GasUsed = 1<<63, 0 })
+	mk(func(h *c10Hdr) { h.Difficulty = big.NewInt(0) })
+	mk(func(h *c10Hdr) { h.Difficulty, h.Number = big.NewInt(0), 0 })
+	mk(func(h *c10Hdr) { h.Difficulty = c10Pow2(64, 0) })
+	mk(func(h *c10Hdr) { h.BaseFee = c10Pow2(256, 0) })
+	return ops
+}
+
+func c10MinU(a, b uint64) uint64 {
+	if a < b {
+		return a
+	}
+	return b
+}
+
 func c10Pow2(k uint, d int64) *big.Int {
 	return new(big.Int).Add(new(big.Int).Lsh(big.NewInt(1), k), big.NewInt(d))
 }
@@ -1479,14 +1639,6 @@ func TestC10(t *testing.T) {
 		if strings.HasPrefix(out, "ok") {
 			g.variant = "fixed"
 		}
-		// does the tree compare a header's revision number with its parent's?
-		ops := g.witness()
-		w.apply(probeRec, ops[0])
-		a1, _ := c10Parse(strings.Fields(ops[1])[2:])
-		a1.Rev = 3
-		if res, _ := w.submit(a1, 1700000100, false); res != "ok" {
-			g.variant += "+rev"
-		}
 		r.Extra["restrictchain_variant"] = g.variant
 	}
 	// recorded histories are replayed against the variant of the tree under test
@@ -1603,7 +1755,10 @@ func TestC10(t *testing.T) {
 	for i := 0; i < nLow; i++ {
 		run(g.lowFeeHistory())
 		r.Count("history.lowfee")
+		run(g.zeroFeeHistory())
+		r.Count("history.zerofee")
 	}
+	run(g.creationHistory())
 	for i := 0; i < nB; i++ {
 		for k := 0; k < 9; k++ {
 			run(g.boundaryHistory(k))
